@@ -53,6 +53,7 @@ fn make_limit(
     base: usize,
     is_tail: bool,
     input: &Rc<RefCell<TapState>>,
+    upstream: Option<(StageSpec, Rc<RefCell<LimTapState>>)>,
     env: &Env,
     cs: &Rc<ConsumerShared>,
     limits: &mut Limits,
@@ -92,7 +93,7 @@ fn make_limit(
     };
     let idx = limits.writers.len();
     limits.writers.push(LimitWriter { kind: spec.kind, src, announced, tap: st.clone(), consumer: cs.id });
-    let tap = LimitTap { inner, st, input: input.clone(), env: env.clone(), cs: cs.clone() };
+    let tap = LimitTap { inner, st, input: input.clone(), upstream, env: env.clone(), cs: cs.clone() };
     (Box::pin(tap), idx)
 }
 
@@ -200,14 +201,14 @@ pub fn build_chain<I: DiffItem>(
         // on the sort stage's input to evaluate its trigger
         let fused = spec.is_obs() && i + 1 < chain.len() && !chain[i + 1].is_obs() && !chain[i + 1].is_sort();
         let mut stages = Vec::new();
-        let mk = |s: StageSpec, limits: &mut Limits| -> (Option<BoxL>, Option<usize>) {
+        let mk = |s: StageSpec, upstream: Option<(StageSpec, Rc<RefCell<LimTapState>>)>, limits: &mut Limits| -> (Option<BoxL>, Option<usize>) {
             match s.lim() {
                 Some(l) => {
                     let base = match s {
                         StageSpec::DynHeadInit(n, _) | StageSpec::DynTailInit(n, _) | StageSpec::DynSkipInit(n, _) => n,
                         _ => 0,
                     };
-                    let (b, idx) = make_limit(l, base, s.is_tail(), &input, env, cs, limits);
+                    let (b, idx) = make_limit(l, base, s.is_tail(), &input, upstream, env, cs, limits);
                     (Some(b), Some(idx))
                 }
                 None => (None, None),
@@ -215,8 +216,9 @@ pub fn build_chain<I: DiffItem>(
         };
         let (v, s): (Vector<Elem>, BoxS<I>) = if fused {
             let next = chain[i + 1];
-            let (l1, i1) = mk(spec, limits);
-            let (l2, i2) = mk(next, limits);
+            let (l1, i1) = mk(spec, None, limits);
+            let up = i1.map(|i| (spec, limits.writers[i].tap.clone()));
+            let (l2, i2) = mk(next, up, limits);
             stages.push((spec, i1));
             stages.push((next, i2));
             let obs = (cur_values, cur);
@@ -227,7 +229,7 @@ pub fn build_chain<I: DiffItem>(
                 _ => unreachable!(),
             }
         } else {
-            let (l1, i1) = mk(spec, limits);
+            let (l1, i1) = mk(spec, None, limits);
             stages.push((spec, i1));
             apply_stage((cur_values, cur), spec, l1)
         };
